@@ -1,14 +1,14 @@
 SPECIFICATION Spec
 CONSTANTS
   U = "quick"
-  Kind = "obj"
+  Kind = "nest"
   InitPartial = FALSE
   Mirror = FALSE
   MaxLevel = 40
   Small = FALSE
   Avoid = FALSE
   SimK = 1
-  Acts = {"dset", "oset", "rebind", "ddel", "batch", "lset", "ldel", "slice", "lins", "inplace", "xslice"}
+  Acts = {"oset", "rebind", "nest"}
 CONSTRAINT LevelBound
 INVARIANT Conforms
 INVARIANT AltsConform
